@@ -836,6 +836,27 @@ func runUpDownStage(w *out.W, tier string) {
 			continue
 		}
 		w.Count("reversible")
+		// which theorem of Props_C17.v speaks about this plan (by the kinds of its source changes)
+		{
+			drops, others := 0, 0
+			for _, ch := range r.changes {
+				if strings.HasPrefix(ch, "-T(") {
+					drops++
+				} else {
+					others++
+				}
+			}
+			switch {
+			case c.direct != "":
+				w.Count("scope:rename (oracle only)")
+			case drops == 0:
+				w.Count("scope:no DropTable (C17_reversible_sound_partial)")
+			case others == 0:
+				w.Count("scope:DropTable only (C17_reversible_sound_droptables_partial)")
+			default:
+				w.Count("scope:DropTable mixed with other changes (oracle only)")
+			}
+		}
 		for _, k := range rkinds {
 			w.Count("rev:" + k)
 		}
